@@ -100,6 +100,33 @@ pub fn cases(prop: &str, tier: Tier, seed: u64) -> Vec<CaseDesc> {
                 out.push(CaseDesc { spec: format!("rand:{}:{}", seed.wrapping_add(i), i % 64), scenario: "gate".into() });
             }
         }
+        "C14" => {
+            let mut base: Vec<String> = corpus::regress_specs();
+            base.extend(corpus::fixture_specs(true).into_iter().filter(|s| s.contains("name") || s.contains("invalid") || s.contains("import") || s.contains("simd") || s.contains("atomic") || s.contains("mem")));
+            base.extend(corpus::probe_specs());
+            base.extend(g("customs", 30, 1500));
+            base.extend(g("names", 10, 500));
+            base.extend(g("full", 10, 500));
+            // invalid inputs: the callback must not run
+            let mut rng = crate::rng::Rng::derive(seed, &[0xC14]);
+            let valid: Vec<String> = g("customs", 20, 400);
+            for b in &valid {
+                let k = rng.below(crate::mutate::NUM_MUTATORS);
+                base.push(format!("mut:{}:{}:{}", rng.below(1 << 30), k, b));
+            }
+            out.extend(with_scenario(base, "cfg"));
+        }
+        "C13" => {
+            out.extend(with_scenario(disk_corpus(false), "rt:emit,gc"));
+            out.extend(with_scenario(g("names", 4000, 150_000), "rt:emit,gc"));
+            out.extend(with_scenario(g("customs", 500, 20_000), "rt:emit,gc"));
+        }
+        "C19" => {
+            out.extend(with_scenario(disk_corpus(false), "rt:emit,gc,probe,onparse"));
+            for (p, nq, nt) in [("full", 2500, 100_000), ("gcgraph", 1500, 60_000), ("mvp", 300, 10_000)] {
+                out.extend(with_scenario(g(p, nq, nt), "rt:emit,gc,probe,onparse"));
+            }
+        }
         "C08" => {
             out.extend(with_scenario(disk_corpus(false), "rt:emit,emit2,fix,shift"));
             for (p, nq, nt) in [("full", 1500, 80_000), ("customs", 800, 30_000), ("names", 800, 30_000), ("gcgraph", 500, 20_000)] {
